@@ -10,7 +10,7 @@ def modules():
             "fmfile": dict(harness=["fm_file.cpp"], entries=ENTRIES)}
 
 
-MODELS_Q = [(SSE, EXPORTINFO | TEXPATH), (FO4, EXPORTINFO | EXTRA), (OB, TEXPATH | SRCTEX), (OB, SKIN | COLL), (OB, SKIN | SHAPEEXTRA | EXTRA), (SSE, LOOSE | ROOT1 | EXTRA), (OB, EXTRA | SHAPE2 | LOOSECHAIN), (SSE, LOOSECHAIN | LOOSE | CTRL), (FO3, SKIN | EXTRA | SRCTEX), (SK, SKIN | CTRL | SHAPE2), (SSE, SKIN | COLL | EXTRA | LOOSE),
+MODELS_Q = [(SSE, EXPORTINFO | TEXPATH), (FO4, EXPORTINFO | EXTRA), (OB, TEXPATH | SRCTEX), (OB, SKIN | COLL | STRIPPART), (OB, SKIN | SHAPEEXTRA | EXTRA), (SSE, LOOSE | ROOT1 | EXTRA), (OB, EXTRA | SHAPE2 | LOOSECHAIN), (SSE, LOOSECHAIN | LOOSE | CTRL), (FO3, SKIN | EXTRA | SRCTEX | STRIPPART), (SK, SKIN | CTRL | SHAPE2), (SSE, SKIN | COLL | EXTRA | LOOSE),
             (SSE, SHAPE2 | CHILDNODE), (FO4, SKIN | EXTRA | LOOSE), (FO76, EXTRA | SHAPE2)]
 MODELS_T = MODELS_Q + [(v, f) for v in (OB, FO3, SK, SSE, FO4, FO76) for f in (0, SKIN, SKIN | COLL | EXTRA | CTRL | SHAPE2 | LOOSE | CHILDNODE, CTRL | LOOSE, SYMPOS | SKIN)]
 
